@@ -95,8 +95,9 @@ RunWhy(r) == IF \E k \in 1..Len(r.events) : r.events[k].a = "raise" THEN "except
 (* process with nothing restored in between (refused factorisations, ill-posed and well-posed fits in  *)
 (* every order).  Every call must preserve the global state and answer as it would on its own:         *)
 (*   chol : okobs against the exact definiteness of the integer matrix (df computed here)              *)
-(*   fit  : status admissible for the support class of (pc, mask) - for a fit with a non-finite weight *)
-(*          -1 / -2 -, finite coefficients, mask shrinking exactly when the status is -1               *)
+(*   fit  : status admissible for the support class of (pc, mask); with a non-finite weight the status  *)
+(*          is open (see NonFiniteWeightStatuses) and an answer 0 is judged on the measured disc;       *)
+(*          finite coefficients, mask shrinking exactly when the status is -1                           *)
 ProcEventWhy(e) ==
   IF e.exc # "" THEN "exception: " \o e.exc
   ELSE IF ~StatePreserved(e.gsb, e.gsa) THEN "process-wide floating-point error handling changed by the call"
@@ -110,6 +111,11 @@ ProcEventWhy(e) ==
        IN IF ~SupportOK(P) \/ ~(EndKnots(P) \subseteq mk /\ mk \subseteq AllKnots(P)) THEN "harness: bad support abstraction"
           ELSE IF e.st \notin adm /\ ~(e.illcond /\ e.st \in {-1, -2}) THEN "status not admissible"
           ELSE IF ~e.finite THEN "non-finite coefficients"
+          ELSE IF e.nonfinite /\ e.st = 0 /\ e.wclass = "inf" /\ e.disc > e.tol
+               THEN "status 0 with an infinite weight but the spline misses that datum"
+          ELSE IF e.nonfinite /\ e.st = 0 /\ e.wclass = "nan" /\ e.condok
+                  /\ FitClass([nord |-> e.nord, S |-> e.S, pc |-> e.pcfin], mk).determined /\ e.disc > e.tol
+               THEN "status 0 with a NaN weight but not the optimum over the finitely weighted data"
           ELSE IF ~(ToSet(e.after) \subseteq mk /\ (mk \ ToSet(e.after)) \subseteq Interior(P)
                     /\ ((e.st = -1) <=> (ToSet(e.after) # mk))) THEN "mask change not admissible"
           ELSE ""
